@@ -704,13 +704,16 @@ def _plan_cells(ctx: Ctx) -> None:
     ip = next((p_ for p_ in gp.params[1:] if "inst" in p_), None)
     alloc = [c for c in ast.walk(gp.node) if isinstance(c, ast.Call)
              and isinstance(c.func, ast.Attribute)
-             and c.func.attr == "__new__" and len(c.args) >= 3]
+             and c.func.attr == "__new__" and (len(c.args) >= 3 or any(
+                 k.arg == "dtype" for k in c.keywords))]
     if len(alloc) != 1 or ip is None:
         ctx.ob("D15.5", gp, gp.node, False,
                "the allocation of the plan array is not recognised",
                construct="plan cell type")
         return
-    d = inline_locals(gp.node, alloc[0].args[2])
+    d = inline_locals(gp.node, alloc[0].args[2] if len(
+        alloc[0].args) >= 3 else next(
+        k.value for k in alloc[0].keywords if k.arg == "dtype"))
     src = ast.unparse(d)
     ok = src == f"{ip}.game_plan_dtype"
     detail = (f"the plan is allocated with `{src}`")
